@@ -542,8 +542,14 @@ def _run(ctx):
         bad_ = None
         for h_ in t_.handlers:
             names_ = ["BaseException"] if h_.type is None else [norm(x_).split(".")[-1] for x_ in (h_.type.elts if isinstance(h_.type, ast.Tuple) else [h_.type])]
-            if any(n_ in ("SystemExit", "BaseException") for n_ in names_) and not any(isinstance(x_, ast.Raise) and x_.exc is None for b_ in h_.body for x_ in ast.walk(b_)):
+            reraises = any(isinstance(x_, ast.Raise) and x_.exc is None for b_ in h_.body for x_ in ast.walk(b_))
+            exits_nonzero = any(isinstance(x_, ast.Call) and norm(x_.func) in ("exit", "sys.exit", "quit", "os._exit") and x_.args
+                                and isinstance(prog.fold_or_none(x_.args[0], f_.module), int) and prog.fold_or_none(x_.args[0], f_.module) != 0 for b_ in h_.body for x_ in ast.walk(b_))
+            if any(n_ in ("SystemExit", "BaseException") for n_ in names_) and not reraises:
                 bad_ = (h_, f"`except {', '.join(names_)}` swallows the SystemExit")
+            elif any(n_ == "Exception" for n_ in names_) and not reraises and not exits_nonzero:
+                # (settings _control rejects by letting an exception escape - `eco` without a value, `a=b=c` - end the process non-zero too)
+                bad_ = (h_, "`except Exception` swallows the exception an ill-formed setting raises and the runner goes on to its normal exit")
         for b_ in t_.finalbody:
             for x_ in ast.walk(b_):
                 if isinstance(x_, (ast.Return, ast.Raise)) or (isinstance(x_, ast.Call) and norm(x_.func) in ("exit", "sys.exit", "quit", "os._exit")):
@@ -551,6 +557,8 @@ def _run(ctx):
         ctx.ob("C20.f", f_.qual, bad_ is None, "the runner lets a SystemExit raised by the command pass through unchanged", func=f_.qual, file=file,
                node=bad_[0] if bad_ else t_, construct="try around the command",
                fail=(bad_[1] + ": a rejected setting ends the process with status 0") if bad_ else "")
+    from ._chains import transparent_deprecated
+    transparent_deprecated(ctx, "C20.c")          # (a deprecated setting name reads the same default and writes the same attribute)
     ctx.require_min("settings_loops", 1)
     ctx.require_min("exits", 2)          # (eleven on the pinned tree; a shared reject helper legitimately leaves a handful)
     ctx.require_min("conversion_leaves", 5)
